@@ -379,14 +379,16 @@ def HArg.resolve (st : HState K V) : HArg K V → Arg K V
   | .mapping m => .mapping m
   | .pairs l => .pairs l
 
+/-- the argument of the constructor: `cls(s)` gets `s` as an OMD that is not the new object -/
+def HArg.resolveNew (st : HState K V) : HArg K V → Arg K V
+  | .self => .omd st.s
+  | E => E.resolve st
+
 def HState.withS (st : HState K V) (r : OMD K V × Out K V) : HState K V × Out K V :=
   (⟨r.1, st.t⟩, r.2)
 
 def hstep (st : HState K V) : HOp K V → HState K V × Out K V
-  | .new E F => st.withS (OMD.new (match E with
-      | none => none
-      | some .self => some (.omd st.s)   -- `cls(s)`: the new object is not `s`
-      | some E => some (E.resolve st)) F)
+  | .new E F => st.withS (OMD.new (E.map (HArg.resolveNew st)) F)
   | .add k v => (⟨st.s.add k v, st.t⟩, .unit)
   | .addlist k vs => (⟨st.s.addlist k vs, st.t⟩, .unit)
   | .setitem k v => (⟨st.s.setitem k v, st.t⟩, .unit)
